@@ -428,7 +428,7 @@ func main() {
 	r.Assume = []string{
 		"script verification (lib/script, property C01) is an oracle Bool per input in the Lean model and spec; the harness computes it with script.VerifyTxScript against the coin the sequential semantics names",
 		"wire decoding (C09), header/merkle/commitment rules (C05) and the record serialisation (C10) are outside this check: candidates are well-formed blocks built by chainkit",
-		"8-byte key collisions between DIFFERENT txids inside the UTXO map cannot be produced (2^64 work); only inputs naming a colliding txid are generated",
+		"hash-prefix injectivity: no two different txids among the block's transactions and the records of the UTXO set share their first 8 bytes (a 2^32-work birthday collision on SHA-256d; UnspentDB.commit would file the new record over the old one — observed by keyClashProbe at the record layer, evidence field hash_prefix_injectivity_probe; Lean: connect_sound_needs_prefix_injectivity); only INPUTS naming a colliding txid are generated",
 		"reference semantics of Bitcoin written from memory of Bitcoin Core (DESIGN §3.7)",
 	}
 	if r.Replay != "" {
@@ -438,6 +438,7 @@ func main() {
 		if only := os.Getenv("VERIF_C04_ONLY"); only != "episodes" && only != "reorg" {
 			directStreams(r, o)
 		}
+		keyClashProbe(r) // keyclash.go: records what UnspentDB.commit does on an 8-byte key clash (assumption, not a judge)
 		r.Extra["direct_streams_s"] = time.Since(t0).Seconds()
 		t0 = time.Now()
 		if only := os.Getenv("VERIF_C04_ONLY"); only != "direct" && only != "reorg" {
